@@ -14,6 +14,8 @@ INT_RANGE = {
 
 MODELS = {}
 MODEL_PATTERNS = []
+EXTERNAL_CRATES = {'std', 'core', 'alloc', 'url', 'debversion', 'chrono', 'regex', 'rowan', 'serde', 'pyo3', 'lazy_regex'}
+DERIVE_TRAITS = {'FromDeb822': 'FromDeb822Paragraph', 'ToDeb822': 'ToDeb822Paragraph'}
 
 
 def model(*names):
@@ -30,7 +32,7 @@ def strip_generics(s):
     if '::<' not in s: return s
     out = []; i = 0; n = len(s)
     while i < n:
-        if s.startswith('::<', i) and not s.startswith('::<impl ', i):
+        if s.startswith('::<', i) and (not s.startswith('::<impl ', i) or _prev_seg_is_type(s, i)):
             depth = 1; i += 3
             while depth and i < n:
                 ch = s[i]
@@ -40,6 +42,12 @@ def strip_generics(s):
             continue
         out.append(s[i]); i += 1
     return ''.join(out)
+
+
+def _prev_seg_is_type(s, i):
+    j = i
+    while j > 0 and (s[j-1].isalnum() or s[j-1] == '_'): j -= 1
+    return j < i and s[j].isupper()
 
 
 def strip_type_generics(t):
@@ -119,12 +127,62 @@ class Program:
                 if f.argtypes and '{closure#' in last:
                     m = re.match(r'^&?(?:mut )?\{closure@([^}]*)\}$', f.argtypes[0])
                     if m: self.byclosure.setdefault((crate, m.group(1)), []).append(f)
+        self.closure_rewrites = 0
+        for crate in mirfiles:
+            amb = {span for (c, span), l in self.byclosure.items() if c == crate and len(l) > 1}
+            if amb: self._disambiguate_closures(crate, amb, mirfiles[crate])
         self.impl_cache = {}
         self.src_cache = {}
         self.enums = {}        # 'crate::mod::Name' -> [(variant, discr)]
         self.structs = {}      # 'crate::mod::Name' -> [field names]
         self.reexports = {}    # crate -> {Name: module}
         self._scan_sources()
+
+    def _disambiguate_closures(self, crate, amb, plain_path):
+        """closures of one macro expansion share a span: read their {closure#N} identity off an aligned -Zverbose-internals dump"""
+        from . import mirdump
+        vpath = plain_path[:-4] + '.v.mir'
+        if not os.path.exists(vpath): vpath = mirdump.dump_verbose(crate)
+        vf = parse_mir(open(vpath).read(), crate)
+        pf = [f for f in self.all if f.crate == crate]
+        if len(vf) != len(pf): raise MirError('verbose dump of %s does not align: %d vs %d items' % (crate, len(vf), len(pf)))
+        byname = {}
+        for f in pf: byname.setdefault(f.name, []).append(f)
+        pat = re.compile(r'((?:::\{closure#\d+\})+) closure_kind_ty')
+        spanpat = re.compile(r'\{closure@([^}]*)\}')
+        def rewrite(x, mapping):
+            if isinstance(x, str):
+                for span, name in mapping.items():
+                    x = x.replace('{closure@%s}' % span, '{closure#%s}' % name)
+                return x
+            if isinstance(x, tuple): return tuple(rewrite(y, mapping) for y in x)
+            if isinstance(x, list): return [rewrite(y, mapping) for y in x]
+            return x
+        for f, g in zip(pf, vf):
+            if f.name != g.name or set(f.blocks) != set(g.blocks): raise MirError('verbose dump misaligned at ' + f.name)
+            depth = f.name.count('::{closure#')
+            for b, sts in f.blocks.items():
+                gst = g.blocks[b]
+                if len(gst) != len(sts): raise MirError('verbose dump misaligned in %s bb%d' % (f.name, b))
+                for i, st in enumerate(sts):
+                    raw = g.blocks[b][i]
+                    if 'closure#' not in raw: continue
+                    flat = repr(st)
+                    spans = []
+                    for m in spanpat.finditer(flat):
+                        if m.group(1) in amb and m.group(1) not in spans: spans.append(m.group(1))
+                    if not spans: continue
+                    kids = []
+                    for m in pat.finditer(raw):
+                        chain = re.findall(r'\{closure#(\d+)\}', m.group(1))
+                        if len(chain) == depth + 1 and chain[-1] not in kids: kids.append(chain[-1])
+                    if len(kids) != len(spans): continue     # left ambiguous: reaching it is reported as unencoded
+                    mapping = {}
+                    for span, k in zip(spans, kids):
+                        name = '%s::{closure#%s}' % (f.name, k)
+                        if name in self.fns: mapping[span] = name
+                    if mapping:
+                        sts[i] = rewrite(st, mapping); self.closure_rewrites += 1
 
     CRATE_DIRS = {'deb822': '.', 'control': 'debian-control', 'copyright': 'debian-copyright', 'dep3': 'dep3',
                   'aptsources': 'apt-sources'}
@@ -187,7 +245,7 @@ class Program:
         return None
 
     def src_text(self, crate, path, l1, c1, l2, c2):
-        full = os.path.join(self.srcroot, self.CRATE_DIRS[crate], path) if not path.startswith('/') else path
+        full = os.path.join(self.srcroot, path) if not path.startswith('/') else path   # spans are relative to the cargo invocation dir (/repo)
         if full not in self.src_cache:
             try: self.src_cache[full] = open(full).read().split('\n')
             except OSError: self.src_cache[full] = None
@@ -435,14 +493,17 @@ class Engine:
             st = last_seg(selfty); tr = last_seg(trait)
             trait_args = None
             mt = re.match(r'^.*?<(.*)>$', trait.strip())
-            sty_norm, scrate = self._norm_path(strip_type_generics(re.sub(r"^&(?:'\w+ )?(?:mut )?", '', selfty.strip())), crate)
+            bare_self = strip_type_generics(re.sub(r"^&(?:'\w+ )?(?:mut )?", '', selfty.strip()))
+            ext_self = bare_self.split('::')[0] if bare_self.split('::')[0] in EXTERNAL_CRATES and '::' in bare_self else None
+            sty_norm, scrate = self._norm_path(bare_self, crate)
             cands = []
             selfpath = {}
             for f in P.methods.get(meth, []):
                 info = P.impl_info(f)
                 if not info or not info['trait']: continue
                 if info['derive']:
-                    if info['trait'].split('::')[-1] != tr: continue
+                    dn = info['trait'].split('::')[-1]
+                    if dn != tr and DERIVE_TRAITS.get(dn) != tr: continue
                 elif last_seg(info['trait']) != tr: continue
                 if info['derive'] or '$' in (info['self'] or ''):
                     # derive / macro_rules impl: the self type is read off the signature
@@ -450,7 +511,8 @@ class Engine:
                     sp = None
                     if last_seg(a0) == st: sp = a0
                     elif last_seg(f.ret) == st: sp = f.ret
-                    elif re.search(r'\b' + re.escape(st) + r'\b', f.ret or '') and not f.argtypes: sp = st
+                    elif re.search(r'\b' + re.escape(st) + r'\b', f.ret or ''):
+                        mm = re.search(r'((?:\w+::)*' + re.escape(st) + r')\b', f.ret); sp = mm.group(1)
                     if sp is None: continue
                     selfpath[f] = strip_type_generics(re.sub(r"^&(?:'\w+ )?(?:mut )?", '', sp.strip()))
                     cands.append(f)
@@ -458,6 +520,7 @@ class Engine:
                 if last_seg(info['self']) == st:
                     selfpath[f] = strip_type_generics(re.sub(r"^&(?:'\w+ )?(?:mut )?", '', info['self'].strip())); cands.append(f)
                 elif info['self'] in info['params']: selfpath[f] = None; cands.append(f)    # blanket impl
+            if ext_self: cands = [f for f in cands if (selfpath.get(f) or '').split('::')[0] == ext_self]
             cands = self._pick(cands, scrate)
             if len(cands) > 1:
                 # disambiguate by module of the self type
@@ -612,6 +675,11 @@ class Engine:
         if k == 'fnitem': return FnItem(op[1], fr.fn.crate, fr.subst)
         raise Unsupported(str(op))
 
+    def closure_by_name(self, crate, name):
+        l = [f for f in self.prog.fns.get(name, []) if f.crate == crate]
+        if len(l) != 1: raise Unsupported('closure %s not found' % name)
+        return l[0]
+
     def closure_fn(self, crate, span, index=None):
         lst = self.prog.byclosure.get((crate, span))
         if not lst:
@@ -644,6 +712,7 @@ class Engine:
             t = c[11:]
             m = re.match(r'^\{closure@([^}]*)\}$', t)
             if m: return Closure(self.closure_fn(fr.fn.crate, m.group(1)), [])
+            if t.startswith('{closure#'): return Closure(self.closure_by_name(fr.fn.crate, t[9:-1]), [])
             m = re.match(r'^fn\(.*\{(.+)\}$', t, re.S)
             if m: return FnItem(m.group(1), fr.fn.crate, fr.subst)
             return UNIT
@@ -656,6 +725,13 @@ class Engine:
             raise Unsupported('promoted const ' + c)
         # enum unit variants / named constants
         cs = strip_generics(c)
+        m = re.match(r'^(.*)::(\w+)\((.*)\)$', cs, re.S)
+        if m and last_seg(m.group(1)) in STD_VARIANTS and m.group(2) in STD_VARIANTS[last_seg(m.group(1))]:
+            inner = m.group(3).strip()
+            payload = [self.const(fr, x if not x.startswith('const ') else x[6:]) for x in split_top(inner)] if inner else []
+            return EnumV(last_seg(m.group(1)), m.group(2), payload)
+        if re.fullmatch(r'(?:\w+::)*\w+', cs) and cs.split('::')[-1] in ('Error', 'ParseError') and cs.startswith(('std::fmt', 'core::fmt')):
+            return Agg('Error', [])
         m = re.match(r'^(.*)::(\w+)$', cs)
         if m:
             ty = last_seg(m.group(1))
@@ -711,6 +787,7 @@ class Engine:
             vals = [self.operand(fr, o) for (_, o) in rv[2]]
             m = re.match(r'^\{closure@([^}]*)\}$', name)
             if m: return Closure(self.closure_fn(fr.fn.crate, m.group(1)), vals)
+            if name.startswith('{closure#'): return Closure(self.closure_by_name(fr.fn.crate, name[9:-1]), vals)
             sname = strip_generics(name)
             # enum struct-variant?  Path::Variant { .. }
             segs = sname.split('::')
@@ -972,6 +1049,8 @@ class Engine:
 
     def _resolve_call(self, callee, crate, nohook=False):
         c = strip_generics(callee)
+        if c.startswith(('str::<impl str>::', 'alloc::str::<impl str>::')): c = 'core::str::<impl str>::' + c.split('<impl str>::', 1)[1]
+        elif c.startswith(('slice::<impl ', 'alloc::slice::<impl ')): c = 'core::slice::<impl ' + c.split('slice::<impl ', 1)[1]
         if not nohook and c in self.hooks: return ('hook', None, c)
         mdl = self.models.get(c)
         if mdl is not None: return ('model', mdl, c)
@@ -1016,6 +1095,11 @@ class Engine:
     def _subst_for(self, fn, callee, outer):
         """bind the impl's type parameters from the call's trait arguments"""
         info = self.prog.impl_info(fn)
+        if info and info['derive'] and info['trait'].split('::')[-1] in DERIVE_TRAITS:
+            # impl<P: Deb822LikeParagraph> XDeb822Paragraph<P> for T   (generated by the derive)
+            m = re.match(r'^<(.+) as [\w:]*?\w+<(.+)>>::\w+(?:::<.*>)?$', callee, re.S)
+            if m: return {'P': m.group(2).strip()}
+            return outer
         if not info or not info['params']: return None
         m = re.match(r'^<(.+) as (.+)>::\w+(?:::<.*>)?$', callee)
         if not m: return None
